@@ -153,9 +153,10 @@ def _one(d, ctx, kinds, **gen_kw):
 
     # Bayes rule from the component log_pdf and the stored weights
     lp = ctx.lib(mm.component_log_pdf, model, case, clause='log_pdf-raises')
-    if not np.all(np.isfinite(lp)):
-        raise Violation('component-log_pdf-not-finite',
-                        f'{int(np.sum(~np.isfinite(lp)))} entries', kind=case.kind)
+    if np.any(np.isnan(lp)) or np.any(lp == np.inf):
+        # the right hand side of Bayes' rule is undefined (density overflow
+        # of a collapsed component); the validity predicate above still held
+        raise Borderline('component density overflow')
     ref = mm.bayes_posterior(model, case, mask=mask, log_pdf=lp)
     err = float(np.max(np.abs(ref - post))) if post.size else 0.0
     require(err <= tol_for(case), 'posterior-is-bayes-rule',
